@@ -124,7 +124,7 @@ func init() {
 		Assumptions: []string{"pattern syntax and single-pattern matching are those of moby/patternmatcher (same library on both sides, fresh matcher per decision in the reference)", "map functions are stateless"},
 		Cases: func(tier string) int {
 			if tier == "thorough" {
-				return 1000000
+				return 4000000
 			}
 			return 20000
 		},
